@@ -43,12 +43,17 @@ def instances(tier, seed):
     add("place:S10:trig-sym4->BCl3:axis2:triclinic:stretched", struct='S10', repl='trig-sym4->BCl3', axes=[2], other=(0.2, 0.9, 0), symmetric=True,
         bound=0.1, cost=60)
     # partial replacement: the drawn subset comes in any order (all orders explored), copies have different orientations
-    add("place:S2:chiral4->CHSP:fraction0.9:triclinic", struct='S2', repl='chiral4->CHSP', axes=[0], other=(0, 0.2, 0.6), fraction=0.9, cost=60)
+    add("place:S2:chiral4->CHSP:fraction0.9:triclinic", struct='S2', repl='chiral4->CHSP', axes=[0], other=(0, 0.2, 0.6), fraction=0.9, pattern_terms=True, cost=60)
     add("place:S4:collinear3->OCSN:fraction0.9", struct='S4', repl='collinear3->OCSN', axes=[1], other=(0.3, 0, 0.8), fraction=0.9, cost=90)
     # replacement reaching further than one cell length from the anchor atom (thin cell)
     # (a one-atom search pattern fixes no orientation and the minimum-image convention does not apply to a 17 A arm in a 6.4 A cell: only
     # the in-cell clause and the bookkeeping are decided here)
     add("place:S6:single->FCl-long:axis0", struct='S6', repl='single->FCl-long', axes=[0], other=(0, 0.3, 0.4), bound=1e9, cost=20)
+    # far from the origin, pseudo-symmetric search motif, every random.choice outcome
+    add("place:S24:pseudo6->plusS:axis0:far-from-origin", struct='S24', repl='pseudo6->plusS', axes=[0], other=(0, 0.3, 0.4), cost=30)
+    add("place:S24t:pseudo6->plusS:axis2:far-from-origin:triclinic", struct='S24t', repl='pseudo6->plusS', axes=[2], other=(0.2, 0.3, 0), cost=30)
+    # three-step history: replace, replicate, replace again on the supercell
+    add("seq:S1:replace-replicate-replace", family='seq', struct='S1', repl='chiral4->CHSP', repl2='chiralCHSP->chiral4', dims=(2, 1, 1), axes=[1], other=(0.4, 0, 0.8), cost=90)
     # joint rigid motion of both patterns
     for k, jp in enumerate(['p3', 'flipy', 'rz90']):
         sname, rp = [('S1', 'chiral4->CHSP'), ('S5', 'pair->CFO'), ('S2', 'chiral4->big')][k]
@@ -57,6 +62,10 @@ def instances(tier, seed):
     add("place:S1:chiral4->CHSP:hints(1,2,0)", struct='S1', repl='chiral4->CHSP', axes=[2], other=(0.2, 0.9, 0), axisp1_idx=1, axisp2_idx=2, opoint_idx=0, cost=20)
     add("place:S2:chiral4->big:hints(3,0,1)", struct='S2', repl='chiral4->big', axes=[0], other=(0, 0.9, 0.3), axisp1_idx=3, axisp2_idx=0, opoint_idx=1, cost=40)
     if tier == 'thorough':
+        add("place:S5:pair->CFO:fraction0.9:bond", struct='S5', repl='pair->CFO', axes=[1], other=(0.6, 0, 0.2), fraction=0.9, pattern_terms=True, cost=120)
+        add("seq:S2:replace-replicate-replace:triclinic", family='seq', struct='S2', repl='chiral4->CHSP', repl2='chiralCHSP->chiral4', dims=(1, 1, 2), axes=[0], other=(0, 0.3, 0.8), cost=200)
+        add("place:S1:chiral4->CHSP:corner-window", struct='S1', repl='chiral4->CHSP', axes=[0, 1, 2], other=(0, 0, 0),
+            ranges={'0': (0.72, 0.86), '1': (0.64, 0.78), '2': (0.55, 0.72)}, cost=400)
         add("place:S1:chiral4->CHSP:axes01", struct='S1', repl='chiral4->CHSP', axes=[0, 1], other=(0, 0, 0.45), cost=600)
         add("place:S2:chiral4->CHSP:axes12:triclinic", struct='S2', repl='chiral4->CHSP', axes=[1, 2], other=(0.5, 0, 0), cost=900)
         add("place:S5:pair->CFO:axes02", struct='S5', repl='pair->CFO', axes=[0, 2], other=(0, 0.3, 0), cost=900)
@@ -71,6 +80,18 @@ def instances(tier, seed):
 
 def body(ctx, p):
     R = run_e2e(ctx, p)
+    if p.get('family') == 'seq':
+        info = check_placement(ctx, p, R, bound=p.get('bound'))
+        if info is None:
+            return
+        sup = R['res'].replicate(tuple(p['dims']))
+        R2 = second_replacement(ctx, sup, p['repl2'], np.array(sup.cell, dtype=float))
+        ctx.require('second search finds every image of every first-step product', len(R2['occ']) == len(R['occ']) * int(np.prod(p['dims'])),
+                    detail=dict(found=len(R2['occ'])))
+        info2 = check_placement(ctx, dict(p, repl=p['repl2']), R2, bound=p.get('bound'))
+        if info2 is not None:
+            check_bystanders(ctx, dict(p, repl=p['repl2']), R2)
+        return
     info = check_placement(ctx, p, R, bound=p.get('bound'))
     if info is not None:
         check_bystanders(ctx, p, R)
